@@ -70,26 +70,27 @@ type c19MAcct struct {
 }
 
 type c19MCase struct {
-	Suite   string     `json:"suite"`
-	Tags    []string   `json:"tags,omitempty"`
-	NT      bool       `json:"nt"`
-	Height  int64      `json:"height"`
-	Base    string     `json:"base_fee"`
-	MGP     string     `json:"min_gas_price_dec"`
-	Mult    string     `json:"min_gas_multiplier_dec"`
-	Msgs    []c19MMsg  `json:"msgs"`
-	Code    uint32     `json:"code"`
-	Accts   []c19MAcct `json:"accounts"`
-	Coll0   string     `json:"collector_pre"`
-	Coll1   string     `json:"collector_post"`
-	World0  string     `json:"world_pre"`
-	World1  string     `json:"world_post"`
-	Supply0 string     `json:"supply_pre"`
-	Supply1 string     `json:"supply_post"`
-	BLim    int64      `json:"block_gas_limit"`
-	BGas0   uint64     `json:"block_gas_pre"`
-	BGas1   uint64     `json:"block_gas_post"`
-	CtxGas  int64      `json:"abci_gas_used"`
+	Suite    string     `json:"suite"`
+	Tags     []string   `json:"tags,omitempty"`
+	NT       bool       `json:"nt"`
+	Height   int64      `json:"height"`
+	Proposer string     `json:"proposer"`
+	Base     string     `json:"base_fee"`
+	MGP      string     `json:"min_gas_price_dec"`
+	Mult     string     `json:"min_gas_multiplier_dec"`
+	Msgs     []c19MMsg  `json:"msgs"`
+	Code     uint32     `json:"code"`
+	Accts    []c19MAcct `json:"accounts"`
+	Coll0    string     `json:"collector_pre"`
+	Coll1    string     `json:"collector_post"`
+	World0   string     `json:"world_pre"`
+	World1   string     `json:"world_post"`
+	Supply0  string     `json:"supply_pre"`
+	Supply1  string     `json:"supply_post"`
+	BLim     int64      `json:"block_gas_limit"`
+	BGas0    uint64     `json:"block_gas_pre"`
+	BGas1    uint64     `json:"block_gas_post"`
+	CtxGas   int64      `json:"abci_gas_used"`
 }
 
 func runC19Multi(a *Args) error {
@@ -163,7 +164,7 @@ func (s *c19S) oneMulti(directed bool, directedVariant int) error {
 	}
 	s.setBlockMaxGas(blim)
 	s.topUp()
-	env.NextBlock(time.Second)
+	proposer := s.nextBlockProposer()
 	baseFee := s.baseFee()
 	mgpInt := new(big.Int).Quo(mgp.BigInt(), big.NewInt(1_000_000_000_000_000_000))
 
@@ -212,7 +213,7 @@ func (s *c19S) oneMulti(directed bool, directedVariant int) error {
 		tags = []string{c19TagCreateNonce}
 		s.w.Count("directed=create-then-more-messages")
 	}
-	cs := c19MCase{Suite: "c19multi", Tags: tags, Height: env.Header.Height, Base: baseFee.String(), MGP: mgp.BigInt().String(), Mult: mult.BigInt().String(), BLim: blim}
+	cs := c19MCase{Suite: "c19multi", Proposer: proposer, Tags: tags, Height: env.Header.Height, Base: baseFee.String(), MGP: mgp.BigInt().String(), Mult: mult.BigInt().String(), BLim: blim}
 	var built []c19Built
 	seen := map[string]bool{}
 	var involved []common.Address
